@@ -1,11 +1,28 @@
-"""Helpers for properties decided by an in-process explorer (vx)."""
+"""Helpers for properties decided by an in-process explorer (vx) plus a CLI conformance slice."""
 import json
 import common
+import cli_slices
+import cli_cfg
 
 
 def replay(prop, path, vxname):
-    out = common.replay_vx(vxname, path)
-    defects = out.get("defects", [])
+    body = json.load(open(path))
+    case = body.get("case", {})
+    if "cli_c17" in case or "cli_c18" in case or "cli_c08" in case:
+        defects = cli_cfg.replay_case(prop, case)
+    elif "cli_config" in case or "cli_graph" in case:
+        if "cli_graph" in case:
+            g = case["cli_graph"]
+            r = cli_slices.graph_task((prop, g["n"], [tuple(e) for e in g["edges"]], g["files"]))
+            defects = [{"sig": "cli:" + s, "detail": d} for s, d, _ in r["v"]]
+        elif prop == "C10":
+            defects = [{"sig": "cli:" + s, "detail": d} for s, d in cli_slices.c10_task(case["cli_config"]["targets"])]
+        else:
+            r = cli_slices.c01_task(case["cli_config"]["targets"])
+            defects = [{"sig": "cli:" + s, "detail": d} for s, d, _ in r["v"]]
+    else:
+        out = common.replay_vx(vxname, path)
+        defects = out.get("defects", [])
     if defects:
         for d in defects:
             print("REPLAY property=%s still violates: [%s] %s" % (prop, d["sig"], d["detail"][:400]))
